@@ -612,7 +612,39 @@ def setup():
     return 0
 
 
+def scratch_mode(argv):
+    """./check --scratch-repo <worktree> <normal arguments...>
+    Development aid (never used by a registered command): run the machinery against a scratch
+    worktree of the repository instead of /repo.  Copies /verif (sources, compiled Coq, and a seed
+    copy of the cargo target dir) to /tmp/verif-scratch-<hash>, rewrites the /repo/ paths of the
+    harness workspace, and runs the check there.  Remove the directory when done."""
+    repo = os.path.abspath(argv[1])
+    rest = argv[2:]
+    h = hashlib.md5(repo.encode()).hexdigest()[:8]
+    dst = f"/tmp/verif-scratch-{h}"
+    os.makedirs(dst, exist_ok=True)
+    rc, out = sh(["rsync", "-a", "--delete", "--exclude", "/target", "--exclude", "/work", "--exclude", "/.git",
+                  "--exclude", "/evidence", ROOT + "/", dst + "/"])
+    if rc != 0:
+        log(out); return 2
+    for d, _, names in os.walk(os.path.join(dst, "harness")):
+        for nm in names:
+            if nm.endswith((".toml", ".rs")):
+                fp = os.path.join(d, nm)
+                t = open(fp).read()
+                t2 = t.replace('"/repo/', '"' + repo + '/')
+                if t2 != t:
+                    open(fp, "w").write(t2)
+    if not os.path.exists(os.path.join(dst, "target")) and os.path.exists(TARGET):
+        sh(["cp", "-a", TARGET, os.path.join(dst, "target")])
+    env = dict(os.environ, VERIF_REPO=repo)
+    log(f"[scratch] running in {dst} against {repo}")
+    return subprocess.call([os.path.join(dst, "check")] + rest, env=env, cwd=dst)
+
+
 def main(argv):
+    if argv and argv[0] == "--scratch-repo":
+        return scratch_mode(argv)
     if not argv or argv[0] in ("-h", "--help"):
         print(__doc__ or "usage: check (--setup | Cxx [--tier quick|thorough] [--replay file])")
         return 2
